@@ -334,11 +334,14 @@ func probeInMemoryBucket() string {
 		return c
 	}
 	for i := 0; i < n; i++ {
-		if _, err := conns[i].Exec(fmt.Sprintf("select s3db_refresh('im%d_%d')", run, i)); err != nil {
-			return fmt.Sprintf("FAIL refresh %d: %v", i, err)
+		// (half of the connections re-open their table first: what was committed is in the bucket)
+		if i%2 == 1 {
+			if _, err := conns[i].Exec(fmt.Sprintf("select s3db_refresh('im%d_%d')", run, i)); err != nil {
+				return fmt.Sprintf("FAIL refresh %d: %v", i, err)
+			}
 		}
 		if c := count(conns[i], fmt.Sprintf("im%d_%d", run, i)); c != 1 {
-			return fmt.Sprintf("FAIL connection %d sees %d rows of its own committed table after a refresh (expected 1)", i, c)
+			return fmt.Sprintf("FAIL connection %d sees %d rows of its own committed table (expected 1)", i, c)
 		}
 	}
 	rd, err := sql.Open("sqlite3", ":memory:")
